@@ -129,6 +129,17 @@ pub(crate) fn compute(
     // degree in constant time instead of rescanning the coefficients, and
     // `degree() >= 7n` becomes `len() > 7n` (the empty polynomial passes
     // either way).
+    #[cfg(feature = "verif")]
+    if crate::verif::prover_forced() {
+        // Verification hook: behave like a prover that ignores a non-zero
+        // remainder, keeping only the quotient coefficients an honest
+        // quotient can occupy (degree <= 4n + 6).
+        let n = quotient_domain.size() / 8;
+        let mut coeffs = quotient_poly.to_vec();
+        coeffs.resize(4 * n + 7, BlsScalar::zero());
+        return Ok(Polynomial::from_coefficients_vec_untrimmed(coeffs));
+    }
+
     if quotient_poly.len() > 7 * (quotient_domain.size() / 8) {
         return Err(Error::CircuitUnsatisfied);
     }
